@@ -19,7 +19,10 @@ def run(c):
               "restarts, crashes tearing the last put at a random/boundary offset, crashes tearing an erase after 0..4 bytes, and "
               "(15 % of the cases) byte flips / truncations; 25 % of the cases end with an enumeration of tear offsets of the final "
               "put (quick: boundaries + random, thorough and -mode=enum: every byte offset, exhaustive for that history); "
-              "-mode=big: real 50 MB files around fileRotateSize and maxChunkSize. ALL GetBucket calls of a case go through ONE reused "
+              "-mode=big: real 50 MB files around fileRotateSize and maxChunkSize. The first four -mode=big cases are scripted boundary probes: REAL bodies of "
+              "maxChunkSize, max-1, max+1 bytes put, restarted and re-read, and sparse-file header probes of the tail reader at the same "
+              "three sizes, each compared with the model's writer/reader size predicates. Fault op: a waiting tail file vanishes "
+              "between the start-up scan and the tail read (model: OpenFile-error branch). ALL GetBucket calls of a case go through ONE reused "
               "scratch pad (as the agent's sender does), seconds with empty bodies are mixed in, and the model threads the pad (getP).  After every op the real ids/bytes/TotalFileSize, "
               "ref counts, read/write heads and a checksum of every file are compared with the Lean model. "
               "non-trivial = a restart/crash happened after an erase or a rotation (or a torn erase / size-rotation boundary); "
@@ -27,9 +30,9 @@ def run(c):
     c.assumptions += [
         "the file system keeps prefixes: a torn put leaves a prefix of header++body (the two WriteAt calls are not reordered), a torn erase a prefix of its 4 bytes",
         "file names (wall clock with nanoseconds) are strictly increasing, so name order = creation order",
-        "I/O error branches (OpenFile/WriteAt/Seek failures) and the flock on run.lock are not modelled",
+        "I/O error branches other than 'the waiting tail file is gone at OpenFile' (WriteAt/Seek failures, create errors) and the flock on run.lock are not modelled",
         "crc32c is a parameter of the theorems (detection of corruption is reduced to crc distinguishing the byte strings)",
-        "size-based rotation is tied at predicate level only (mode=big: observed rotation on real 50 MB files vs the model's `rotates`)",
+        "size-based rotation and the maxChunkSize limits are tied at predicate level (mode=big: observed behaviour on real 50 MB files / sparse files vs the model's `rotates`, `tooBigLen`, `badChunk`)",
     ]
     binary = c.go_build(HARNESS)
     if binary:
@@ -37,6 +40,7 @@ def run(c):
     lem = ["Abs", "Inv", "Read", "Read2", "Read3", "Loop", "Drain", "Get", "Erase", "Erase2", "Erase3", "Drop", "Rotate", "NewFile",
            "Append", "Run", "GetLive", "Sizes", "Torn", "TornErase"]
     c.prove("SH.Props.C09", extra_files=["SH/Model/DiskCache.lean"] + [f"SH/Lemmas/DiskCache{x}.lean" for x in lem])
+    c.prove("SH.Lemmas.DiskCacheLimits")         # writer/reader size limits agree; accounting when a waiting file vanishes
     c.prove("SH.Lemmas.DiskCachePad")            # GetBucket's result is independent of the reused scratch pad's previous contents
     c.prove("SH.Lemmas.DiskCacheBytes")          # first-round byte-level theorems, still audited one by one
     drv = c.driver(DRIVER)
@@ -47,7 +51,7 @@ def run(c):
         rc, out = c.go_run(binary, [f"-n={c.n(8, 80)}", "-mode=enum", f"-seed={c.seed + 77}"])
         c.harness_ok(rc, out, "verif-c09 -mode=enum")
         c.correspond(out, drv, label="enum")
-        rc, out = c.go_run(binary, [f"-n={c.n(6, 30)}", "-mode=big"])
+        rc, out = c.go_run(binary, [f"-n={c.n(8, 30)}", "-mode=big"])
         c.harness_ok(rc, out, "verif-c09 -mode=big")
         c.correspond(out, drv, label="big")
         if c.tier == "thorough":
@@ -76,6 +80,8 @@ META = {
              "bytes, readFuel always suffices), torn_tail (last put torn at ANY byte loses only that put), torn_erase (fixed reader: the "
              "4-byte magic write of an erase torn after k=0..4 bytes: k<=2 everything re-read, k=3,4 everything but that second, "
              "never another second lost; the pre-fix loss is kept as a history-level decide witness), erased_never_returned, "
+             "accepted_size_readable (every body size PutBucket accepts is accepted by the tail reader, all sizes; boundary maxChunkSize), "
+             "acct_vanish/acct_skipMissing (size accounting when a waiting tail file vanishes before it is opened), "
              "getP_eq_get (the bytes GetBucket returns through the caller's REUSED scratch pad do not depend on the pad's previous "
              "contents), size_accounting (total = sum of file sizes, knownSize/waitingSize/unsent), file_removed (a file stays only while a "
              "known second or a head refers to it). Byte-level theorems of round one unchanged. The model is tied to the code by "
